@@ -516,7 +516,7 @@ pub fn limit_engine(e: &EngA) -> (EngA, Vec<Prog>) {
     let big = [MAX_SAFE - 1, MAX_SAFE];
     let mut progs: Vec<Prog> = vec![];
     // multi-digit components (the main alphabet only has one-digit numbers): 9 -> 10 carries etc.
-    let mid = [9u64, 10, 11, 99, 100];
+    let mid = [9u64, 10, 11, 99, 100, 255, 256, 65535, 65536, 4294967295, 4294967296, 281474976710655, 281474976710656];
     for op in ALL_OPS {
         for &b in mid.iter().chain(big.iter()) {
             for len in 1..=3usize {
